@@ -26,6 +26,9 @@ func makeMap(kt types.Type) value {
 
 // hashKey returns a Go-comparable key for concrete keys of basic/pointer type; ok=false otherwise.
 func hashKey(k value) (interface{}, bool) {
+	if ks, ok := k.(string); ok {
+		checkLazy(ks)
+	}
 	switch k := k.(type) {
 	case bool, int, int8, int16, int32, int64, uint, uint8, uint16, uint32, uint64, uintptr, float32, float64, string, *value:
 		return k, true
